@@ -623,7 +623,7 @@ impl Entry for ValueLayered<'_> {
             if let Op::Value { name, val } = op {
                 let l = &self.layers[vi % self.layers.len()];
                 vi += 1;
-                <S<S<S<Z>>> as Depth>::go(w, name.as_str(), val, l);
+                <S<S<Z>> as Depth>::go(w, name.as_str(), val, l);
             }
         }
     }
@@ -652,7 +652,7 @@ pub fn check_value(case: &ValueCase) -> CaseResult {
     let mut expected = vec![];
     let mut eff_layers: Vec<Vec<VLayer>> = vec![];
     for (i, r) in plain.iter().enumerate() {
-        let layers: Vec<VLayer> = case.layers[i % case.layers.len()].iter().take(3).cloned().collect();
+        let layers: Vec<VLayer> = case.layers[i % case.layers.len()].iter().take(2).cloned().collect();
         let mut one = vec![r.clone()];
         let mut eff = vec![];
         for l in &layers {
@@ -1000,13 +1000,13 @@ pub fn run(ctx: &mut Ctx) {
     ctx.explore(
         SubCfg::new(
             "c15-value-wrappers",
-            "every value of an arbitrary entry under 0-3 statically nested value wrappers (WithDimensions, ForceFlag x3, Option, Box, Arc, &, Cow, FormattedValue with a pass-through formatter lifted through Option<Box<Arc<_>>>). Oracle as above at value level. Non-trivial = >=2 layers on a value",
+            "every value of an arbitrary entry under 0-2 statically nested value wrappers (WithDimensions, ForceFlag x3, Option, Box, Arc, &, Cow, FormattedValue with a pass-through formatter lifted through Option<Box<Arc<_>>>). Oracle as above at value level. Non-trivial = >=2 layers on a value",
             if q { 40_000 } else { 1_000_000 },
         )
         .threads(threads)
         .mandatory(&["v-with-dimensions", "v-force-flag", "v-option", "v-box", "v-arc", "v-ref", "v-cow", "v-formatted-lifted"]),
         || {
-            (arb_entry_c15(), prop::collection::vec(prop::collection::vec(arb_vlayer(), 0..4), 1..5))
+            (arb_entry_c15(), prop::collection::vec(prop::collection::vec(arb_vlayer(), 0..3), 1..5))
                 .prop_map(|(entry, layers)| ValueCase { entry, layers })
         },
         check_value,
